@@ -209,12 +209,12 @@ func isWordByte(c byte) bool {
 
 var c11Alphabet = []string{"a", "b", "c", "f", "len", "map", "all", "1", "2", ".5", "'s'", "true", "nil",
 	// string literals whose content spells an operator or a bracket: the token KIND decides, not its text
-	`"("`, `'#'`, `"."`, `","`, `":"`, `"]"`,
+	`"("`, `'#'`, `"."`, `","`, `":"`, `"]"`, `"-"`, `'in'`, `"and"`, `'*'`, `"not"`, `'?'`, `".."`, `'matches'`, `"=="`,
 	"or", "||", "and", "&&", "==", "!=", "<", ">", "<=", ">=", "in", "not in", "matches", "contains", "startsWith", "endsWith",
 	"..", "+", "-", "*", "/", "%", "**", "not", "!", "?", ":", "?.", ".", ",", "(", ")", "[", "]", "{", "}", "#"}
 
 // one representative per token class (for the longer exhaustive tier)
-var c11Reduced = []string{"a", "f", "len", "all", "1", "'s'", `")"`, "nil", "or", "and", "==", "not in", "..", "+", "-", "*", "**", "not", "?", ":", "?.", ".", ",", "(", ")", "[", "]", "{", "}", "#"}
+var c11Reduced = []string{"a", "f", "len", "all", "1", "'s'", `")"`, `'-'`, `"in"`, "nil", "or", "and", "==", "not in", "..", "+", "-", "*", "**", "not", "?", ":", "?.", ".", ",", "(", ")", "[", "]", "{", "}", "#"}
 
 func c11Excluded(toks []string) string {
 	for i := 0; i+1 < len(toks); i++ {
